@@ -3,9 +3,9 @@
    the implementation on a probe: a public callable with arrays of given shapes (CProbe), or one of the shape
    helpers called directly (CHelper).  CNoModel: callables whose acceptance logic is not a sequence of shape
    checks (cv2_rodrigues dispatches on r.size); they are judged by the oracle only. *)
-From Coq Require Import List Bool String.
-From PW Require Import Result Agree.
-From PW.model Require Import M_shape.
+From Coq Require Import List Bool String ZArith QArith Qabs.
+From PW Require Import Num NumQ Vec NpList Result Agree.
+From PW.model Require Import M_shape M_inflection M_array.
 From PW.corr Require Import C20_expected.
 Import ListNotations.
 
@@ -14,7 +14,13 @@ Inductive outcome := OAccept | ORaise (e : exn).
 Inductive case :=
 | CProbe (name : string) (b0 : benv) (args : list (string * argv)) (obs : outcome)
 | CHelper (c : check) (b0 : benv) (args : list (string * argv)) (obs : outcome)
-| CNoModel (name : string).
+| CNoModel (name : string)
+(* extra callables (M_inflection.v, M_array.v): observed = indices of the returned rows / exception class.
+   exact = true: uniform power-of-two spacing, every quotient is exact in binary64, decisions compared exactly;
+   exact = false: a decision is compared only when the model's value is away from its threshold *)
+| CInflection (exact : bool) (pts : list (vec3 Q)) (rise run : vec3 Q) (obs : result (list nat))
+| CMaxAcc (exact : bool) (pts : list (vec3 Q)) (rise run : vec3 Q) (obs : result (option nat))
+| CFind (arr : list Q) (wrap : bool) (rep chg : list bool).
 
 Definition agree {A} (m : result A) (o : outcome) : bool :=
   match m, o with
@@ -29,9 +35,53 @@ Definition delegates_of (name : string) : list delegate :=
 Definition predicted (name : string) (b0 : benv) (args : list (string * argv)) : result unit :=
   run_effective (expected ++ external_contracts) name b0 (delegates_of name) (env_of args).
 
+Definition band : Q := 1 # 1000000.
+Definition far (x : Q) : bool := negb (Qle_bool (Qabs x) band).
+Definition memn (i : nat) (l : list nat) : bool := existsb (Nat.eqb i) l.
+
+(* membership of every row index agrees with the model's mask, wherever the decision is clear *)
+Definition inflection_agree (exact : bool) (d2 : list Q) (obs : list nat) : bool :=
+  forallb (fun i =>
+             if Nat.ltb (S i) (List.length d2)
+             then let p := Qmult (at_ QOps d2 i) (at_ QOps d2 (S i)) in
+                  if exact || far p then Bool.eqb (memn i obs) (Qle_bool p 0) else true
+             else negb (memn i obs))
+          (seq 0 (List.length d2)) &&
+  forallb (fun i => Nat.ltb i (List.length d2)) obs.
+
+(* clear = every first difference used by the valid mask is away from 0 and the maximum is isolated *)
+Definition maxacc_clear (d1 d2 : list Q) (r : option nat) : bool :=
+  forallb far d1 &&
+  match r with
+  | None => true
+  | Some i => forallb (fun j => Nat.eqb j i || negb (nth j (valid_mask QOps d1) false)
+                                 || far (Qminus (at_ QOps d2 i) (at_ QOps d2 j)))
+                      (seq 0 (List.length d2))
+  end.
+
+Definition onat_eqb (a b : option nat) : bool :=
+  match a, b with Some x, Some y => Nat.eqb x y | None, None => true | _, _ => false end.
+
 Definition check_case (c : case) : bool :=
   match c with
   | CProbe name b0 args obs => agree (predicted name b0 args) obs
   | CHelper ch b0 args obs => agree (run_check ch (env_of args) b0) obs
   | CNoModel _ => true
+  | CInflection exact pts rise run obs =>
+      match inflection_points QOps pts rise run, obs with
+      | Raise e, Raise e' => exn_eqb e e'
+      | Ok None, _ => true                                   (* outside the model (coordinates not increasing) *)
+      | Ok (Some _), Ok o => inflection_agree exact (fd2 QOps pts rise run) o
+      | _, _ => false
+      end
+  | CMaxAcc exact pts rise run obs =>
+      match point_of_max_acceleration QOps pts rise run, obs with
+      | Raise e, Raise e' => exn_eqb e e'
+      | Ok None, _ => true
+      | Ok (Some r), Ok o =>
+          if exact || maxacc_clear (fd1 QOps pts rise run) (fd2 QOps pts rise run) r then onat_eqb r o else true
+      | _, _ => false
+      end
+  | CFind arr wrap rep chg =>
+      bool_list_eqb (find_repeats QOps arr wrap) rep && bool_list_eqb (find_changes QOps arr wrap) chg
   end.
